@@ -747,7 +747,8 @@ class MaterialIndexer(Indexer):
             self.data = data = SparseArray.from_shape([N_phases, chemicals.size])
             self._data_cache = {}
         else:
-            data, cache = container
+            data, self._data_cache = container
+            self.data = data
             data[:] = 0.
         old_chemicals = self._chemicals
         old_index = range(old_chemicals.size)
